@@ -117,6 +117,7 @@ func c15hysteresis(env sched.Env) *sched.Report {
 				c := c15hyst{rise, fall, seq}
 				o, d := runHyst(c)
 				rep.Execs++
+				sched.Progress(nil)
 				rep.Transitions += int64(L)
 				if o != "" {
 					rep.Outcomes["violation: "+o]++
